@@ -619,9 +619,13 @@ def resume_entries(ctx):
     """[sample_mode, n_samples, total iterations, iterations after which the run is stopped and resumed]"""
     if ctx.quick:
         c = [[1], [2], [1, 2]]
-        return [["nonlinear_resample", 2, 3, c[ctx.seed % 3]], ["linear_resample", 2, 3, c[(ctx.seed + 1) % 3]]]
+        return [["nonlinear_resample", 2, 3, c[ctx.seed % 3]], ["linear_resample", 2, 3, c[(ctx.seed + 1) % 3]],
+                # per-iteration callables whose values change between iterations
+                [["linear_resample", "nonlinear_resample"][ctx.seed % 2], 2, 3, c[(ctx.seed + 2) % 3], True]]
     return [["nonlinear_resample", 2, 4, [1, 3]], ["linear_resample", 2, 3, [2]], ["linear_resample", 3, 3, [1, 2]],
-            ["nonlinear_sample", 2, 3, [1]], ["nonlinear_update", 2, 3, [2]], ["linear_resample", 0, 3, [1]]]
+            ["nonlinear_sample", 2, 3, [1]], ["nonlinear_update", 2, 3, [2]], ["linear_resample", 0, 3, [1]],
+            ["linear_resample", 2, 4, [1, 3], True], ["nonlinear_resample", 2, 4, [2], True], ["linear_sample", 2, 3, [1], True],
+            ["nonlinear_update", 2, 3, [2], True], ["nonlinear_resample", 1, 3, [1, 2], True]]
 
 
 def runs_spec(ctx):
